@@ -48,6 +48,7 @@ def addLine (U : Universe) (l : String) : Universe :=
     { U with vsets := U.vsets ++ [(nat! v, { name := nat! n, matching := rest.map nat! })] }
   | "union" :: u :: "vs" :: rest =>
     { U with unions := U.unions ++ [(nat! u, rest.map nat!)] }
+  | "filterrev" :: v :: _ => { U with filterRev := v == "1" }
   | _ => U
 
 def parseUniverse (ls : List String) : Universe := ls.foldl addLine {}
